@@ -246,6 +246,16 @@ func (e *Exec) instr(f *frame, st *State, ins ssa.Instruction) bool {
 		e.guardAccess(f, st, a, true, x)
 		e.guardElemAccess(f, st, p, a, true, x)
 		e.store(st, a, v)
+		if al, ok := x.Addr.(*ssa.Alloc); ok {
+			// a local cell: remember (conservatively, for the rest of the function) that it may hold an
+			// object that was read out of a guarded map
+			if v.Guard != nil && v.Guard.Elem {
+				if f.cellGuard == nil {
+					f.cellGuard = map[ssa.Value]*GuardTag{}
+				}
+				f.cellGuard[al] = v.Guard
+			}
+		}
 	case *ssa.TypeAssert:
 		e.execTypeAssert(f, st, x)
 	case *ssa.If, *ssa.Jump:
@@ -336,6 +346,11 @@ func (e *Exec) execUnOp(f *frame, st *State, x *ssa.UnOp) {
 		tag := e.guardAccess(f, st, a, false, x)
 		e.guardElemAccess(f, st, v, a, false, x)
 		e.bind(f, x, val)
+		if tag == nil {
+			if al, ok := x.X.(*ssa.Alloc); ok && f.cellGuard != nil {
+				tag = f.cellGuard[al]
+			}
+		}
 		if tag != nil {
 			bv := f.vals[x]
 			bv.Guard = tag
